@@ -19,6 +19,7 @@ func runBinary(stdinPath string, stdin []byte, args ...string) (out string, code
 		limits = []time.Duration{5 * time.Second}
 	}
 	for attempt, limit := range limits {
+		core.Beat()
 		ctx, cancel := context.WithTimeout(context.Background(), limit)
 		cmd := exec.CommandContext(ctx, CalcBinary, args...)
 		var ob bytes.Buffer
